@@ -547,7 +547,10 @@ struct Step {
             code = cf();
         } catch (...) {
             Val c = classify_exception();
-            res.put("escaped", Val::str(c.s + ": " + c.s2.substr(0, 200)));
+            if (c.s == "VerifAssertFailure")
+                is_assert = true; // an instrumented SYMENGINE_ASSERT, not a library exception (reported by C03)
+            else
+                res.put("escaped", Val::str(c.s + ": " + c.s2.substr(0, 200)));
             escaped = true;
         }
         if (is_assert)
@@ -560,7 +563,11 @@ struct Step {
                     res.put("c", obs());
                 } catch (...) {
                     Val c = classify_exception();
-                    res.put("escaped", Val::str("observer: " + c.s + ": " + c.s2.substr(0, 200)));
+                    if (c.s == "VerifAssertFailure") {
+                        if (!is_assert)
+                            res.put("assert", Val::boolean(true));
+                    } else
+                        res.put("escaped", Val::str("observer: " + c.s + ": " + c.s2.substr(0, 200)));
                 }
             }
         }
